@@ -33,6 +33,21 @@ def leaves(n, inherited=None, path=()):
     else:
         yield path, (eff or 0), sc_py(n['s']['l']), {k: sc_py(v) for k, v in kw.get('md', [])}
 
+def containers(n, inherited=None, path=()):
+    """(path, effective priority, own metadata) of every mapping node"""
+    kw = n.get('kw') or {}
+    eff = inherited if inherited is not None else kw.get('prio')
+    if 'm' in n:
+        yield path, (eff or 0), {k: sc_py(v) for k, v in kw.get('md', [])}
+        for k, c in n['m']:
+            yield from containers(c, eff, path + (sc_py(k),))
+
+def tree_containers(t, path=()):
+    if 'c' in t:
+        yield path, t
+        for k, c in t['c']:
+            yield from tree_containers(c, path + (sc_py(k),))
+
 def tree_leaves(t, path=()):
     if 'c' in t:
         for k, c in t['c']:
@@ -98,6 +113,25 @@ class C03(MergeFamProp):
             gmd = {k: sc_py(x) for k, x in n['f']['md']}
             if gmd != md:
                 return f'leaf {list(p)}: metadata {gmd} != {md} (union of keys, winner overrides)'
+        # containers: the newer mapping wins unless the accumulated one has strictly higher priority; metadata alike
+        cbest = {}
+        for d in case['docs']:
+            for p, pr, md in containers(d['raw']):
+                if p not in cbest:
+                    cbest[p] = (pr, dict(md))
+                else:
+                    bpr, bmd = cbest[p]
+                    cbest[p] = (bpr, {**md, **bmd}) if bpr > pr else (pr, {**bmd, **md})
+        gotc = dict(tree_containers(tree['ok']))
+        for p, (pr, md) in cbest.items():
+            n = gotc.get(p)
+            if n is None:
+                return f'mapping {list(p)} is missing from the merged tree'
+            if n['f']['ePrio'] != pr:
+                return f'mapping {list(p)}: priority after merging is {n["f"]["ePrio"]}, expected {pr} (the newer mapping wins unless the older one has strictly higher priority)'
+            gmd = {k: sc_py(x) for k, x in n['f']['md']}
+            if gmd != md:
+                return f'mapping {list(p)}: metadata {gmd} != {md}'
         cfg = io['cfg']
         if 'ok' not in cfg:
             return f'merged fine but evaluation failed: {json.dumps({k: v for k, v in cfg.items() if k != "log"})[:160]}'
